@@ -4,12 +4,28 @@ Model: `Model/Tree.lean`: functional `rotateAt` and the pointer-level `Heap.rota
 (a statement-by-statement transcription of `BinaryTreeNode.rotate`).
 -/
 import Mathy.Model.Tree
+import Mathy.Proofs.HeapRotate
 namespace Mathy
 open BT
 
+theorem rotateTop_ids (t : BT) (d : Dir) : (t.rotateTop d).ids = t.ids := by
+  unfold rotateTop
+  split <;> simp [ids, List.append_assoc]
+
 /-- rotating any node keeps the in-order sequence of node objects exactly -/
 theorem C15_rotate_inorder (t : BT) (p : Path) : (t.rotateAt p).ids = t.ids := by
-  sorry
+  induction p generalizing t with
+  | nil => cases t <;> simp [rotateAt]
+  | cons d q ih =>
+    cases q with
+    | nil =>
+      have : t.rotateAt [d] = t.rotateTop d := by cases t <;> simp [rotateAt]
+      rw [this, rotateTop_ids]
+    | cons d' q' =>
+      cases t with
+      | nil => simp [rotateAt]
+      | node i l r =>
+        cases d <;> simp [rotateAt, ids, ih]
 
 /-- rotating the root changes nothing -/
 theorem C15_rotate_root (t : BT) : t.rotateAt [] = t := by
@@ -19,11 +35,13 @@ theorem C15_rotate_root (t : BT) : t.rotateAt [] = t := by
 theorem C15_rotate_moves_up (pid nid : Nat) (a b c : BT) :
     (BT.node pid (.node nid a b) c).rotateAt [.L] = .node nid a (.node pid b c) ∧
     (BT.node pid a (.node nid b c)).rotateAt [.R] = .node nid (.node pid a b) c := by
-  sorry
+  constructor
+  · simp [rotateAt, rotateTop]
+  · cases a <;> simp [rotateAt, rotateTop]
 
 /-- pointer level, root: a node without parent is left alone -/
 theorem C15_heap_rotate_root (h : Heap) (n : Nat) (hp : (h n).parent = none) : h.rotate n = h := by
-  sorry
+  simp [Heap.rotate, hp]
 
 /-- **pointer level.**  If the heap represents the tree `t` (all links mutually consistent, root
 parentless), node objects are distinct, and `n` is the node at the non-empty path `p`, then after
@@ -31,8 +49,8 @@ the literal pointer assignments of `rotate` the heap represents the functionally
 all parent/child links are again mutually consistent and the grandparent points at `n`. -/
 theorem C15_heap_rotate (h : Heap) (t : BT) (p : Path) (n : Nat)
     (hrep : Rep h t none) (hnd : t.ids.Nodup) (hp : p ≠ []) (hn : (t.sub p).rootId = some n) :
-    Rep (h.rotate n) (t.rotateAt p) none := by
-  sorry
+    Rep (h.rotate n) (t.rotateAt p) none :=
+  heap_rotate_correct h t p n hrep hnd hp hn
 
 /-! non-vacuity -/
 example : (BT.node 1 (.node 2 (.node 3 .nil .nil) (.node 4 .nil .nil)) (.node 5 .nil .nil)).rotateAt [.L]
